@@ -117,6 +117,18 @@ let run_case (inp : string list) (obs : string list) : unit =
       | 'D' ->
         let (tag, pid) = split2 body ':' in
         expect i tok w (do_step (Dequeue (n_of_int (int_of_string tag), n_of_int (int_of_string pid))))
+      | 'B' ->
+        (* the real sender goroutine is blocked in the Write of a message of this key: it has
+           dequeued the key if no batch was in flight, otherwise it is still writing that batch *)
+        let (tag, pid) = split2 body ':' in
+        let k = (n_of_int (int_of_string tag), n_of_int (int_of_string pid)) in
+        (match !s.inflight with
+         | None -> ignore (do_step (Dequeue k))
+         | Some b ->
+           if pkey b.b_path <> k then
+             raise (Mismatch (Printf.sprintf "step=%d %s: the model has a batch of key %d:%d in flight" i tok
+                                (int_of_n (fst (pkey b.b_path))) (int_of_n (snd (pkey b.b_path))))))
+      | 'S' -> raise (Mismatch "the implementation's sender goroutine stalled")
       | 'E' -> expect i tok w (do_step EmitOne)
       | 'O' ->
         let order = if body = "" then [] else
@@ -139,7 +151,10 @@ let run_case (inp : string list) (obs : string list) : unit =
         let got = render_table !keys (fun x pid ->
             match !rib (pfx_of x) (n_of_int pid) with Some t -> Some (int_of_n t) | None -> None) in
         if got <> w then raise (Mismatch (Printf.sprintf "adj-rib-out model=%s impl=%s" got w))
-      | _ -> raise (Mismatch ("unknown label " ^ lab))) obs
+      | _ -> raise (Mismatch ("unknown label " ^ lab))) obs;
+  (* every case ends after a drain (hook-driven) or when the real goroutine has emptied the queue *)
+  if not (quiescent !s) then
+    raise (Mismatch "the implementation is quiescent, the model still has announcements queued or in flight")
 
 let () =
   let compared = ref 0 and mism = ref 0 in
